@@ -316,6 +316,7 @@ class Interp:
         self.loop_ord = None
         self.top_node = None
         self.inlining = 0
+        self.reading = 'body'
 
     # ------------------------------------------------------------------ conversion of constants
     def conv(self, v):
@@ -324,7 +325,10 @@ class Interp:
         if isinstance(v, float):
             return RealVal(v)
         if isinstance(v, bytes):
-            return SBytes.lit(list(v), BYTES)
+            b = SBytes.lit(list(v), BYTES)
+            if len(v) > 32:
+                b.meta = dict(const=v)
+            return b
         if isinstance(v, str):
             return SStr.lit(v)
         if isinstance(v, tuple):
@@ -842,6 +846,8 @@ class Interp:
         if self.is_byteslike(base):
             b = self.bytes_of(base)
             i = to_int(idx)
+            if b.meta and 'const' in b.meta and not isinstance(idx, int):
+                return const_table_lookup(self, tuple(b.meta['const']), i)
             ok = And(i >= -b.n, i < b.n)
             if not st.decide(ok, 'index-in-range'):
                 raise PyRaise(ExcVal(IndexError))
@@ -1361,21 +1367,30 @@ def pow2(n, st):
 _TABLES = {}
 
 
-def const_table_lookup(ip, table, idx):
-    """table[idx] for a constant tuple/bytes of ints and a symbolic index: z3 array constant
-    defined point-wise (facts added once per path)"""
+def table_array(ip, table):
+    """z3 array constant equal to a constant table of ints; its point-wise facts (and its
+    min/max) are added to the path once"""
     st = ip.st
-    key = id(table)
-    name = 'tbl%d_%d' % (len(table), abs(hash(tuple(table))) % 100000)
+    table = tuple(table)
+    name = 'tbl%d_%d' % (len(table), abs(hash(table)) % 100000)
     arr = z3.Array(name, I, I)
+    if ('tblfacts', name) not in st.ghost:
+        st.ghost[('tblfacts', name)] = True
+        st.pc.extend(z3.Select(arr, k) == table[k] for k in range(len(table)))
+    return arr
+
+
+def const_table_lookup(ip, table, idx):
+    """table[idx] for a constant tuple/bytes of ints and a symbolic index"""
+    st = ip.st
     n = len(table)
+    arr = table_array(ip, table)
     if not st.decide(And(idx >= -n, idx < n), 'table-index-in-range'):
         raise PyRaise(ExcVal(IndexError))
     idx2 = simplify(If(idx < 0, idx + n, idx))
-    if ('tblfacts', name) not in st.ghost:
-        st.ghost[('tblfacts', name)] = True
-        st.pc.extend(z3.Select(arr, k) == table[k] for k in range(n))
-    return z3.Select(arr, idx2)
+    v = z3.Select(arr, idx2)
+    st.assume(v >= min(table), v <= max(table))
+    return v
 
 
 class TableRow:
